@@ -74,7 +74,7 @@ if confirmed:
     dst = os.path.join("/verif/seeded", sid)
     os.makedirs(dst, exist_ok=True)
     for f in ["patch.diff", "notes.md"] + [os.path.basename(d) for d in demos]:
-        if os.path.exists(os.path.join(src, f)):
+        if os.path.exists(os.path.join(src, f)) and os.path.abspath(os.path.join(src, f)) != os.path.abspath(os.path.join(dst, f)):
             shutil.copy(os.path.join(src, f), os.path.join(dst, f))
     if result.get("rebased_patch"):
         open(os.path.join(dst, "patch.diff"), "w").write(result["rebased_patch"])
